@@ -28,6 +28,7 @@ def build(*variants):
 
 
 BUILD = os.environ.get("VERIF_BUILD", os.path.join(VERIF, "build"))
+EVIDENCE = os.environ.get("VERIF_EVIDENCE", os.path.join(VERIF, "evidence"))     # development runs against a scratch tree write elsewhere
 
 
 def tool(variant, name):
@@ -333,7 +334,7 @@ class Check:
         self.kf_seen = {}        # id -> count
         self.known = [k for k in load_known() if k.get("property") == pid]
         self.rng = random.Random(self.seed * 1000003 + int(pid[1:]))
-        self.replay_dir = os.path.join(VERIF, "evidence", "replay", pid)
+        self.replay_dir = os.path.join(EVIDENCE, "replay", pid)
         self.workdir = os.path.join(WORK, pid)
         shutil.rmtree(self.workdir, ignore_errors=True)
         os.makedirs(self.workdir, exist_ok=True)
@@ -411,8 +412,8 @@ class Check:
         cov["known_findings_observed"] = self.kf_seen
         ev = {"property_id": self.pid, "tier": self.tier, "seed": self.seed, "level": self.level, "coverage": cov,
               "assumptions": self.assumptions, "wall_s": round(time.time() - self.t0, 1), "violations": len(self.violations)}
-        os.makedirs(os.path.join(VERIF, "evidence"), exist_ok=True)
-        with open(os.path.join(VERIF, "evidence", self.pid + ".json"), "w") as f:
+        os.makedirs(EVIDENCE, exist_ok=True)
+        with open(os.path.join(EVIDENCE, self.pid + ".json"), "w") as f:
             json.dump(ev, f, indent=1, default=str)
         for k in self.known:
             if k.get("status") == "known":
